@@ -33,6 +33,14 @@ func seqProfile(prop string, cas int, tier string) Profile {
 		if cas%8 == 5 {
 			p.ManyObjs = 45 // a directory with many long names
 		}
+		if cas%8 == 6 {
+			// a nearly full disk: requests that need more blocks than there are
+			// must fail as a whole (or, for WRITE, report the short count)
+			p.NearFull = true
+			p.Big = false
+			p.DiskBlocks = []uint64{1800, 2600}[(cas/8)%2]
+			p.W[OpSymlink] *= 3
+		}
 		if tier == "thorough" {
 			p.NOps = 400
 		}
@@ -221,6 +229,11 @@ func concCfg(prop string, cas int, tier string) ConcCfg {
 	c.Focus = cas%4 == 3
 	c.FileFocus = cas%8 == 5
 	c.HalfFreed = cas%8 == 6 || cas%8 == 1
+	if cas%8 == 4 && !knownOpen("C04", "rename-dir-across-directories") && !knownOpen("C04", "rename-dir-into-own-subtree") {
+		c.DirMoves = true
+		c.Focus, c.FileFocus, c.HalfFreed = false, false, false
+		c.OpsPer = 6
+	}
 	if tier == "thorough" {
 		c.Hist = 50
 	}
